@@ -13,4 +13,4 @@ Definition checker_init_bytes (t : fs_table) (file : bytes) (path : cpath) : opt
 Definition find_root_tbl (t : fs_table) (name : bytes) (path : cpath) : option cpath :=
   find_root (tbl_exists t) (tbl_listdir t) name path.
 Extraction Language OCaml.
-Extraction "../ocaml/build/checkpaths/extracted.ml" wire_z wire_nat checker_init_bytes find_root_tbl fi_path fi_length fi_root.
+Extraction "../ocaml/build/checkpaths/extracted.ml" wire_z wire_nat checker_init_bytes find_root_tbl fi_path fi_length fi_root fi_attr fi_padding.
